@@ -97,7 +97,7 @@ def generate(seed, tier="quick"):
                 op = {"op": "make_handle", "id": o.randrange(3), "view": gen_node_view(o, dw.ref)}
             else:
                 hv = [["handle", o.choice(valid)]]
-                kind = o.choice(["group", "set", "record", "stimulate", "clamp", "move"])
+                kind = o.choice(["group", "set", "record", "stimulate", "clamp", "move", "delete_then_train", "delete_then_train"])
                 if kind == "group":
                     op = {"op": "group", "view": hv, "name": o.choice(["g1", "g2", "g3"])}
                 elif kind == "set":
@@ -108,6 +108,14 @@ def generate(seed, tier="quick"):
                     op = {"op": "stimulate", "view": hv, "len": cfg["L"], "seed": o.randrange(1 << 30), "two_d": False}
                 elif kind == "clamp":
                     op = {"op": "clamp", "view": hv, "state": "v", "len": cfg["L"], "seed": o.randrange(1 << 30), "two_d": False}
+                elif kind == "delete_then_train":
+                    # the session keeps using the view after a deletion made through it (which refreshes the view object):
+                    # it must still share parameters the way the view the user created did, and still resolve .edge() etc.
+                    op0 = {"op": o.choice(["delete_recordings", "delete_stimuli", "delete_clamps"]), "view": hv}
+                    if dw.dry_apply(op0) != "unspec":
+                        ops.append(op0)
+                    op = {"op": "make_trainable", "view": hv, "key": o.choice(["radius", "length", "capacitance", "axial_resistivity"]), "init": "float",
+                          "seed": o.randrange(1 << 30)}
                 else:
                     op = {"op": "move", "view": hv, "xyz": [round(o.uniform(-9, 9), 2) for _ in range(3)]}
             if dw.dry_apply(op) != "unspec":
@@ -120,6 +128,26 @@ def generate(seed, tier="quick"):
         if res == "unspec":
             continue  # never emit a call whose outcome is outside the documented semantics
         ops.append(op)
+    if o.random() < 0.3:
+        # view-object block: a view spanning several branches (or cells, or synapses) is kept in a variable, a deletion
+        # is made through it (which refreshes the view object in place) and the same object is used again
+        hid = 3
+        if dw.ref.edges and o.random() < 0.4:
+            syn_ = o.choice([s_["name"] for s_ in dw.ref.syns])
+            blk = [{"op": "make_handle", "id": hid, "view": [["syn", syn_], ["edge", "all"]] if o.random() < 0.5 else [["syn", syn_]]},
+                   {"op": o.choice(["delete_recordings", "delete_stimuli"]), "view": [["handle", hid]]},
+                   {"op": "set", "view": [["handle", hid], ["edge", {"t": "int", "v": o.randrange(64)}]],
+                    "key": o.choice([k_ for s_ in dw.ref.syns if s_["name"] == syn_ for k_ in s_["params"]]), "val": {"seed": o.randrange(1 << 30)}}]
+        else:
+            lvl = "cell" if dw.ref.kind == "network" and o.random() < 0.5 else "branch"
+            blk = [{"op": "make_handle", "id": hid, "view": [[lvl, o.choice(["all", {"t": "list", "v": [o.randrange(64) for _ in range(3)]}])]]},
+                   {"op": o.choice(["delete_recordings", "delete_stimuli", "delete_clamps"]), "view": [["handle", hid]]},
+                   {"op": "make_trainable", "view": [["handle", hid]], "key": o.choice(["radius", "length", "capacitance", "axial_resistivity"]),
+                    "init": "float", "seed": o.randrange(1 << 30)}]
+        for op in blk:
+            if dw.dry_apply(op) == "unspec":
+                break
+            ops.append(op)
     if dw.ref.edges and o.random() < 0.35:
         # trainable block: compartment *and* synaptic parameters trainable at the same time, then deletion through a view
         # (a view has to sort the trainables by what their indices refer to), then more of the same
